@@ -13,7 +13,7 @@ func init() {
 	register("C01",
 		"Structural necessary conditions of C01 decided from /repo's SSA: (argv) the object enumeration is one `git rev-list` with a constant argv containing --objects, --stdin, one ordering flag and no option that adds or hides objects; (roots) the only writer of that process's stdin is the feeder, every AddRoot call is reached only under root.Walk()==true and passes that root's OID(); (dispatch) every header is dispatched on its type literal to exactly one of RegisterBlob / the tree, commit or tag list, and each list is requested and read back once per element by loops over the same list with exactly one Register call per iteration; (effects) the eight census counters receive exactly the update edges the statement demands (update-effect graph vs. frozen oracle) and object id and size handed to a Register call come from the same record; (rootset) the scanned roots are all collected references followed by one explicit root per ROOT argument; (once) record*/finalize* have single callers and double registration panics before any counter update. Not decided: that git enumerates exactly the reachable set, the numeric equality itself.",
 		[]string{"git rev-list --objects --stdin lists each object reachable from the given roots exactly once", "field-based heap model: all instances of a struct type share one node per field", "go/ssa models the source faithfully"},
-		ruleC01Argv, ruleC01Roots, ruleC01Dispatch, ruleC01Effects, ruleC01Rootset, ruleC01Once, func(c *Ctx) { pendingWidth(c, "C01.once") }, func(c *Ctx) { c.checkCollect("C01.rootset") })
+		ruleC01Argv, ruleC01Roots, ruleC01Dispatch, ruleC01Effects, ruleC01Rootset, ruleC01Once, func(c *Ctx) { pendingWidth(c, "C01.once") }, func(c *Ctx) { c.checkCollect("C01.rootset") }, ruleC01Borrowed)
 }
 
 var revListAllowed = map[string]string{
@@ -956,4 +956,17 @@ func (c *Ctx) loopIndexesList(l *scanLoop) bool {
 		}
 	}
 	return found
+}
+
+// ruleC01Borrowed: clauses decided under other properties' names on which
+// the census depends as well: the pending bookkeeping of a record (one
+// increment per registered listener, one decrement per callback, exactly one
+// finalisation — a double finalisation counts the object twice), and
+// --no-replace-objects on every git command (with replace references the
+// enumeration walks the replacement's history).
+func ruleC01Borrowed(c *Ctx) {
+	c.RuleAlias = map[string]string{"C09.pending": "C01.once", "C13.isolation": "C01.argv"}
+	defer func() { c.RuleAlias = nil }()
+	ruleC09Pending(c)
+	ruleC13Isolation(c)
 }
